@@ -36,6 +36,11 @@ func c18Child(args []string) {
 		os.Exit(65)
 	}
 	s.VerifSetFilename(target)
+	// the router starts its modules, the storage first (mgr.Group): Start runs before any save
+	if err := s.Start(); err != nil {
+		fmt.Fprintln(os.Stderr, "start:", err)
+		os.Exit(66)
+	}
 	// the state counts as changed (a mapping added and removed again), so that a storage that skips
 	// writing an unmodified state still performs the save under test
 	_ = s.SaveMapping("verif-harness-touch.myco", netip.MustParseAddr("fd00::1"))
@@ -304,6 +309,10 @@ func runC18(c *Ctx) error {
 			s, err := storage.NewJSONFileStorage(target)
 			if err != nil {
 				c.Violate("the router refuses to start on a state file written by a completed save: "+err.Error(), "refuses-to-start", map[string]any{"sessions": trace})
+				break
+			}
+			if err := s.Start(); err != nil {
+				c.Violate("the storage module does not start on a state file written by a completed save: "+err.Error(), "refuses-to-start", map[string]any{"sessions": trace})
 				break
 			}
 			var ips []netip.Addr
